@@ -254,6 +254,9 @@ type WriteOpts struct {
 	MetaCodecFirst bool
 	// MetaBlocks > 1 splits the metadata map into that many (positive-count) blocks
 	MetaBlocks int
+	// MetaSized writes every metadata block in the size-prefixed form the specification allows for any map
+	// block: negative count, then the block's size in bytes
+	MetaSized bool
 }
 
 // WriteContainer writes records (already partitioned into blocks) as a file.
@@ -287,13 +290,19 @@ func WriteContainer(schemaJSON []byte, s *Schema, blocks [][]any, ch Chooser, o 
 		if end > len(metas) {
 			end = len(metas)
 		}
-		b = AppendLong(b, int64(end-i))
+		var blk []byte
 		for _, m := range metas[i:end] {
-			b = AppendLong(b, int64(len(m.k)))
-			b = append(b, m.k...)
-			b = AppendLong(b, int64(len(m.v)))
-			b = append(b, m.v...)
+			blk = AppendLong(blk, int64(len(m.k)))
+			blk = append(blk, m.k...)
+			blk = AppendLong(blk, int64(len(m.v)))
+			blk = append(blk, m.v...)
 		}
+		if o.MetaSized {
+			b = AppendLong(AppendLong(b, -int64(end-i)), int64(len(blk)))
+		} else {
+			b = AppendLong(b, int64(end-i))
+		}
+		b = append(b, blk...)
 	}
 	b = AppendLong(b, 0)
 	b = append(b, o.Sync[:]...)
